@@ -13,6 +13,10 @@ def run(ctx):
                 "absent/same/different x origin certificate valid/expired/wrong-name/untrusted x mitm-domains exclusion x client-supplied "
                 "X-Forwarded-Proto) replayed through the real proxy with TLS and plaintext sniffing origins. Non-trivial = all.")
     ctx.mc("Mitm.tla", "MC_Mitm.cfg")
+    for m in ("MC_Mitm_mutant.cfg", "MC_Mitm_NoMargin.cfg"):
+        ok, _, _, _ = ctx.mc("Mitm.tla", m, expect_ok=False)
+        if ok:
+            raise vlib.Infra("Mitm mutant %s not detected by the model" % m)
     binp = ctx.build()
     n = 16 if q else 400
     recs, g, d, _ = ctx.gen("Mitm.tla", "GEN_Mitm.cfg", simulate="num=%d" % n, workers=1, timeout=1500, depth=40)
@@ -29,6 +33,16 @@ def run(ctx):
         else:
             ctx.traces_ok += 1
     ctx.sample({"handshake_schedule": hists[0] if hists else None})
+    # handshakes that begin just before a cached leaf expires (Mitm.tla: `aged`, Margin)
+    out = ctx.run_vh(binp, ["c07-expiry", "--arg", "rounds=%d" % (3 if q else 12)], timeout=1200)
+    out, crashed = ctx.nocrash(out, "C07:crash")
+    for r in out:
+        ctx.evaluations += r.get("handshakes", 1)
+        ctx.nontrivial.add("expiry:%d" % r["round"])
+        if not r["ok"]:
+            ctx.violation("C07:leaf-expired-in-flight", r)
+        else:
+            ctx.traces_ok += 1
     recs, g, d, _ = ctx.gen("Mitm.tla", "GEN_MitmCases.cfg")
     cases = [r for r in recs if "c" in r]
     out = ctx.run_vh(binp, ["c07-cases"], cases=cases, timeout=3000)
